@@ -745,7 +745,28 @@ func c17GoIndexing(r *Run) {
 	ifs := map[interface{}]string{"k": "v"}
 	nk := map[c17Key]int{"a": 1, "b": 2}
 	pm := map[string]int{"z": 26}
-	st := vuego.NewStackWithData(map[string]any{"doc": doc, "pdoc": &doc, "emb": emb, "list": []any{doc, &doc},
+	// pointers to pointers (a field, a map value, a slice element, the root data): every level is followed
+	pdoc := &doc
+	ppdoc := &pdoc
+	type holder struct {
+		Ref  **c17Doc
+		Nums **[]int
+	}
+	pids := &ids
+	h := holder{Ref: ppdoc, Nums: &pids}
+	st2 := vuego.NewStackWithData(map[string]any{"x": 1}, ppdoc)
+	for _, c := range []struct {
+		path string
+		want any
+	}{{"Name", doc.Name}, {"Tags.1", doc.Tags[1]}, {"Next.Name", leaf.Name}} {
+		got, ok := st2.Resolve(c.path)
+		r.Eval("goindex:**root:"+c.path, true, nil)
+		if !ok || fmt.Sprint(got) != fmt.Sprint(c.want) {
+			r.Fail("path resolution differs from ordinary Go indexing", map[string]string{"oracle": "go-indexing", "path": "**root:" + c.path},
+				map[string]any{"path": c.path, "root": "a pointer to a pointer to a struct", "resolve": fmt.Sprintf("(%v, %v)", got, ok), "go": fmt.Sprint(c.want)})
+		}
+	}
+	st := vuego.NewStackWithData(map[string]any{"doc": doc, "pdoc": &doc, "ppdoc": ppdoc, "h": h, "ph": &h, "pps": []any{ppdoc}, "ppm": map[string]**c17Doc{"k": ppdoc}, "emb": emb, "list": []any{doc, &doc},
 		"ids": &ids, "arr": &arr, "totals": totals, "byYear": byYear, "nested": nested, "anymap": map[string]any{"0": "zero", "10": []any{"x"}},
 		"ak": ak, "pak": &ak, "ifs": ifs, "nk": nk, "pm": &pm, "wrap": []any{ak}}, doc)
 	type chk struct {
@@ -771,6 +792,8 @@ func c17GoIndexing(r *Run) {
 		{"ids[1]", ids[1], true}, {"ids.2", ids[2], true}, {"ids.3", nil, false}, {"arr.0", arr[0], true}, {"arr[1]", arr[1], true}, {"arr.2", nil, false},
 		{"ak.name", "nm", true}, {"ak.tags.1", "t1", true}, {"ak.tags[0]", "t0", true}, {"ak.sub.deep", "dv", true}, {"ak.missing", nil, false}, {"pak.name", "nm", true},
 		{"ifs.k", "v", true}, {"ifs.zz", nil, false}, {"nk.a", 1, true}, {"nk.b", 2, true}, {"nk.c", nil, false}, {"pm.z", 26, true}, {"pm.y", nil, false}, {"wrap.0.name", "nm", true},
+		{"ppdoc.Name", doc.Name, true}, {"ppdoc.Tags.2", doc.Tags[2], true}, {"h.Ref.Name", doc.Name, true}, {"h.Nums.1", ids[1], true}, {"ph.Ref.Next.Name", leaf.Name, true},
+		{"pps.0.Name", doc.Name, true}, {"ppm.k.Label", doc.Label, true}, {"ppm.zz.Label", nil, false},
 		{"anymap.0", "zero", true}, {"anymap.10.0", "x", true}, {"anymap.1", nil, false},
 		{"Name", doc.Name, true}, {"Name2", doc.Name2, true}, {"Tags.1", doc.Tags[1], true}, {"Next.Name", leaf.Name, true}, {"hidden", nil, false},
 	}
